@@ -1,11 +1,11 @@
 #!/bin/bash
-# collect_mutant.sh <ID> [suffix]: copy a sub-agent's seeded change from /tmp/mut/<ID> to /verif/seeded/<ID>-<suffix>
-# and remove its scratch worktree.
+# collect_mutant.sh <SRCNAME> <DSTNAME>: copy a sub-agent's seeded change from /tmp/mut/<SRCNAME> to
+# /verif/seeded/<DSTNAME> (e.g. C08b -> C08-b) and remove its scratch worktree.
 set -u
-ID="$1"; SFX="${2:-a}"; SRC=/tmp/mut/$ID; DST=/verif/seeded/$ID-$SFX
+SRC=/tmp/mut/$1; DST=/verif/seeded/$2
 mkdir -p "$DST"
-if [ -s "$SRC/seeded.patch" ]; then cp "$SRC/seeded.patch" "$DST/patch.diff"; else git -C "$SRC" diff > "$DST/patch.diff"; fi
+if [ -s "$SRC/seeded.patch" ]; then cp "$SRC/seeded.patch" "$DST/patch.diff"; else git -C "$SRC" diff -- '*.go' ':(exclude)zz_seeded_demo_test.go' > "$DST/patch.diff"; fi
 cp "$SRC/zz_seeded_demo_test.go" "$DST/" 2>/dev/null
 cp "$SRC/SEEDED_NOTES.md" "$DST/NOTES.md" 2>/dev/null
-ls -la "$DST"
-git -C /repo worktree remove --force "$SRC" && rm -f /tmp/mut/$ID.save.patch
+git -C /repo worktree remove --force "$SRC" && rm -f /tmp/mut/$1.save.patch
+ls "$DST" | tr '\n' ' '; echo
